@@ -51,9 +51,13 @@ func (rc *CRespCodec) Decode(c CConn) (*Msg, error) {
 	switch line[0] {
 	case '*':
 		n, err = parseLen(line[1:])
-		if n < 1 || err != nil {
+		if err != nil {
 			logging.Warnf("[%dm][%dc] unexpect resp, buf: %s", msgId, c.Fd(), utils.FormatRedisRESPMessages(buf.PeekAll()))
 			return nil, err
+		}
+		if n < 1 {
+			logging.Warnf("[%dm][%dc] unexpect resp, buf: %s", msgId, c.Fd(), utils.FormatRedisRESPMessages(buf.PeekAll()))
+			return nil, codec.ErrInvalidResp
 		}
 	default:
 		logging.Warnf("[%dm][%dc] unexpect resp, buf: %s", msgId, c.Fd(), utils.FormatRedisRESPMessages(buf.PeekAll()))
